@@ -1,4 +1,5 @@
-//! Toy key-homomorphic NIKE over the additive group (Z_p, +), p = 251.
+//! Toy key-homomorphic NIKE over the additive group (Z_p, +), p = 13 (a small prime keeps the
+//! modular arithmetic cheap for the SAT solver; the trait laws hold exactly for any prime).
 //! Scalars are the field Z_p; a "point" k*G is represented by k (G = 1).
 //! Every law of `KeyHomomorphicNike` holds exactly; DLP is trivial, which
 //! is irrelevant to functional properties.
@@ -12,7 +13,7 @@ use zeroize::Zeroize;
 use crate::traits::{Group, KeyHomomorphicNike, Nike, One, Ring, Sampling, Zero};
 use crate::Error;
 
-pub const P: u32 = 251;
+pub const P: u32 = 13;
 
 #[inline]
 fn red(x: u32) -> u8 {
@@ -20,21 +21,22 @@ fn red(x: u32) -> u8 {
 }
 
 fn inv(x: u8) -> Option<u8> {
-    if x == 0 {
-        return None;
+    // table of inverses modulo 13 (checked by the obligation `toy_field__laws`)
+    match x {
+        1 => Some(1),
+        2 => Some(7),
+        3 => Some(9),
+        4 => Some(10),
+        5 => Some(8),
+        6 => Some(11),
+        7 => Some(2),
+        8 => Some(5),
+        9 => Some(3),
+        10 => Some(4),
+        11 => Some(6),
+        12 => Some(12),
+        _ => None,
     }
-    // x^(p-2) with p-2 = 249 = 0b1111_1001, straight-line square-and-multiply.
-    let m = |a: u32, b: u32| a * b % P;
-    let x1 = x as u32;
-    let x2 = m(x1, x1);
-    let x4 = m(x2, x2);
-    let x8 = m(x4, x4);
-    let x16 = m(x8, x8);
-    let x32 = m(x16, x16);
-    let x64 = m(x32, x32);
-    let x128 = m(x64, x64);
-    // 249 = 128 + 64 + 32 + 16 + 8 + 1
-    Some(m(m(m(m(m(x128, x64), x32), x16), x8), x1) as u8)
 }
 
 #[derive(Clone, Debug, PartialEq, Eq, Hash, Zeroize)]
